@@ -413,6 +413,13 @@ func C13(e *Env) {
 					plans = append(plans, plan{[]spyfs.Fault{{Index: i, Kind: spyfs.FShort, K: k}}, fmt.Sprintf("short positional read (%d bytes, then EOF) at op #%d", k, i), "short", opk})
 				}
 			}
+			// the decrypting views read whole sectors positionally: a file system that hands back fewer bytes
+			// than asked without an error (not sector-aligned) must not make them serve half-decrypted data
+			if opk == "readat" && (strings.HasPrefix(sc.Name, "encrypted-") || sc.Name == "3k3y-image") {
+				for _, k := range []int{700, 2047, 3000, 5000} {
+					plans = append(plans, plan{[]spyfs.Fault{{Index: i, Kind: spyfs.FShortQuiet, K: k}}, fmt.Sprintf("short positional read (%d bytes, no error) at op #%d", k, i), "short", opk})
+				}
+			}
 			// ENOENT is injected only where it cannot be mistaken for a legitimate "does not exist"
 			// answer of the key-file lookup (an open that reports ENOENT *is* "no key")
 			// (the same holds for any look at a key file's path: "not there" selects another transformation)
